@@ -47,7 +47,7 @@ TRANSPARENT = [
     (r"^std::future::Future::poll$|as std::future::Future>::poll$|^futures_util::Future::poll$", 0),  # awaited value = output of the future
     (r"^std::ops::Try::branch$|as std::ops::Try>::branch$", 0),  # `?` keeps the Ok/Some payload
     (r"^std::option::Option::<.*>::(unwrap|expect|unwrap_or|unwrap_or_default|unwrap_unchecked|as_ref|as_mut|as_deref|take|cloned|copied|ok_or|ok_or_else)$", 0),
-    (r"^std::result::Result::<.*>::(unwrap|expect|unwrap_or|unwrap_or_default|ok|as_ref|as_mut)$", 0),
+    (r"^std::result::Result::<.*>::(unwrap|expect|unwrap_or|unwrap_or_default|ok|as_ref|as_mut|map_err)$", 0),  # map_err keeps the Ok payload
     (r"^std::borrow::Cow::<.*>::(into_owned|to_mut)$", 0),
     (r"^jsonrpsee_types::Id::<'.*>::into_owned$|^jsonrpsee_types::params::Id::<'.*>::into_owned$", 0),  # owned copy of the same id
     (r"^jsonrpsee_types::params::SubscriptionId::<'.*>::into_owned$|^jsonrpsee_types::SubscriptionId::<'.*>::into_owned$", 0),
